@@ -85,6 +85,31 @@ def run_components(run, gens, tier, seed, replay, exe, timeout_case=60, label=""
     return ndis, first_dis
 
 
+def big_block_search(run, exe, mode):
+    """failing-input search after the statics obligation broke (TSan build): blocks large and varied enough that the Re-Pair
+    coder grows its internal tables (> 10^5 pairs alive), built by 3 workers"""
+    import random
+    rnd = random.Random(1234)
+    al = "ABCDEFGHIJKLMNOPQRSTUVWXYZabcdefghijklmnopqrstuvwxyz0123456789+/"
+    S = set()
+    while len(S) < 72000:
+        stem = "".join(rnd.choice(al) for _ in range(32))
+        S.add((stem + "a").encode())
+        S.add((stem + "b").encode())
+    S = sorted(S)
+    c = Case("bigblocks-3threads", ["blocks_image 3 600000 " + " ".join(x.hex() for x in S)], {"kind": "image"})
+    out = vlib.run_cases(exe, [c], tag="impl-bigblocks", timeout_case=900).get(c.name, {"status": "missing", "lines": [], "err": []})
+    run.count((c.name,), nontrivial=True)
+    bad = [e for e in out.get("err", []) if "ThreadSanitizer" in e]
+    if bad:
+        run.violation("ThreadSanitizer on a 3-thread build of 5 blocks of 600 kB: " + " | ".join(bad[:3])[:400],
+                      {"kind": "image", "operation": "build", "command": "blocks_image 3 600000 <72000 strings: 36000 random 32-character stems, each with suffixes a and b; "
+                       "random.Random(1234)>", "detail": out.get("err", [])[:12], "case": {"name": c.name, "generator": "tools/props/compcheck.py big_block_search()"}},
+                      found_input=True)
+        return True
+    return False
+
+
 def run(run, pid, gens, tier, seed, replay, rule, mode="asan", timeout_case=60, assumptions=(), poolskel=False):
     run.rule = rule
     run.assumptions = list(assumptions)
@@ -92,6 +117,9 @@ def run(run, pid, gens, tier, seed, replay, rule, mode="asan", timeout_case=60, 
     skel_bad = []
     if poolskel:
         sok, skel_bad, skel = vlib.poolskel_side(run, pid)
+    statics_bad = []
+    if poolskel and pid in ("C09", "C11"):
+        stok, statics_bad, _info = vlib.statics_side(run, pid)
     ok, msg = vlib.build_oracle()
     run.oblige("extracted oracle builds", ok, msg)
     exe, msg = vlib.build_driver(mode)
@@ -104,6 +132,14 @@ def run(run, pid, gens, tier, seed, replay, rule, mode="asan", timeout_case=60, 
         run.violation("the synchronisation skeleton of the current source is not the one the LTS models (%s); property not seen to fail on the explored schedules"
                       % ", ".join(skel_bad), {"kind": "skeleton", "operation": "Properties_poolskel", "obligations": skel_bad,
                                               "detail": run.extra.get("poolskel_check", {})}, found_input=False)
+    if statics_bad and not run.violations:
+        found = big_block_search(run, exe, mode) if mode == "tsan" else False
+        if not found:
+            inv = run.extra.get("statics_check", {}).get("inventory", [])
+            run.violation("a writable static-storage object that was not reviewed exists in the compiled tree (%s): the hypothesis that block "
+                          "construction shares no mutable state is no longer shown; property not seen to fail on the explored schedules"
+                          % ", ".join(statics_bad), {"kind": "statics", "operation": "Properties_statics", "obligations": statics_bad,
+                                                     "inventory": inv, "detail": run.extra.get("statics_check", {}).get("log_tail", "")}, found_input=False)
     if not proof_ok:
         run.violation("proof obligation of %s no longer checks" % pid,
                       {"kind": "proof", "operation": "coqc", "detail": run.extra.get("coq_failure", {})}, found_input=False)
